@@ -213,7 +213,7 @@ func runBackend(ctx context.Context, b backend, file string, timeout int) (strin
 // obligationChunks splits the cases of a (non-cover) obligation into several
 // smaller queries; all must be unsat.
 func obligationChunks(ob *Obligation, prelude string) []*Script {
-	if len(ob.Cases) <= 1 {
+	if len(ob.Cases) <= 1 && !ob.Cover {
 		return []*Script{obligationScript(ob, prelude)}
 	}
 	if ob.Cover {
@@ -222,6 +222,17 @@ func obligationChunks(ob *Obligation, prelude string) []*Script {
 		for i := 0; i < len(ob.Cases) && i < 4; i++ {
 			sub := &Obligation{Name: ob.Name, Cover: true, Cases: ob.Cases[i : i+1]}
 			out = append(out, obligationScript(sub, prelude))
+			// the same path without its quantified facts (models of quantified formulas are hard to find)
+			var qf []*Term
+			for _, t := range ob.Cases[i].pc {
+				if !hasQuant(t) {
+					qf = append(qf, t)
+				}
+			}
+			if len(qf) != len(ob.Cases[i].pc) {
+				sub2 := &Obligation{Name: ob.Name, Cover: true, Cases: []obCase{{pc: qf, goal: ob.Cases[i].goal}}}
+				out = append(out, obligationScript(sub2, prelude))
+			}
 		}
 		return out
 	}
@@ -242,6 +253,18 @@ func obligationChunks(ob *Obligation, prelude string) []*Script {
 		out = append(out, obligationScript(sub, prelude))
 	}
 	return out
+}
+
+func hasQuant(t *Term) bool {
+	if t.Op == "forall" || t.Op == "exists" || t.Op == "hext" {
+		return true
+	}
+	for _, a := range t.Args {
+		if hasQuant(a) {
+			return true
+		}
+	}
+	return false
 }
 
 func obligationScript(ob *Obligation, prelude string) *Script {
@@ -460,11 +483,15 @@ func (d *Discharger) solveOne(ob *Obligation, ci int, text string) chunkResT {
 		got = append(got, ans{backends[0].name, a1, out1, time.Since(start)})
 	}
 	a, first, agree := decided(got)
-	if a == "" || (d.thorough && len(agree) < 2) {
-		got = append(got, try(d.timeout)...)
+	if a == "" || (d.thorough && len(agree) < 2 && !ob.Cover) {
+		to := d.timeout
+		if ob.Cover {
+			to = 5
+		}
+		got = append(got, try(to)...)
 		a, first, agree = decided(got)
 	}
-	if a == "" {
+	if a == "" && !ob.Cover {
 		got = append(got, try(d.timeout*3)...)
 		a, first, agree = decided(got)
 	}
